@@ -247,6 +247,14 @@ def TM.shutdownOp (tm : TM) : TM :=
                  log := (tm.tasks.flatMap (cancelIfTrackedEv tm.map)).reverse ++ tm.log,
                  map := [] }
 
+/-- `shutdown_task_manager` called from inside the manager's own task registered under `name` (a self-unloading overlay):
+    like `shutdownOp` — the calling task is tracked, so its cancellation is requested too and takes effect at its next
+    suspension — but the coroutine does not wait for the task it is running in. -/
+def TM.shutdownFrom (tm : TM) (name : Nat) : TM :=
+  match lookupN tm.map name with
+  | none => tm.shutdownOp
+  | some id => { tm.shutdownOp with awaiting := tm.shutdownOp.awaiting.filter (fun x => x != id) }
+
 /-- `await shutdown_task_manager()` has returned: the flag is set and every gathered task has finished -/
 def TM.shutdownReturned (tm : TM) : Bool := tm.shutdown && tm.awaiting.all (fun id => taskDone tm.tasks id)
 
@@ -313,6 +321,7 @@ inductive TOp
   | cancel (name : Nat)
   | replace (name : Nat) (s : Spec)
   | shutdown
+  | shutdownFrom (name : Nat)
   | pass
   | settle
   | tick
@@ -323,6 +332,7 @@ def TM.step (tm : TM) : TOp → TM
   | .cancel n => (tm.cancel n).1
   | .replace n s => tm.replace n s
   | .shutdown => tm.shutdownOp
+  | .shutdownFrom n => tm.shutdownFrom n
   | .pass => tm.pass
   | .settle => tm.settle
   | .tick => tm.tick
